@@ -537,12 +537,13 @@ def gen_callables(rng: common.Rng, n: int, multi: bool):
     return [[rng.randint(1, 4), rng.randint(-3, 3)]]
 
 
-def exhaustive_cases(rng: common.Rng, max_n: int, alphabet: str, backend: str = "thread"):
-    """All scripts x all outcome assignments x worker counts for n <= max_n (greedy collector)."""
+def exhaustive_cases(rng: common.Rng, max_n: int, alphabet: str, backend: str = "thread", spare_worker_upto: int = 99):
+    """All scripts x all outcome assignments x worker counts 1..n+1 for n <= max_n (greedy collector); the count n+1
+    (more workers than tasks) is only used for n <= spare_worker_upto."""
     cases = []
     for n in range(0, max_n + 1):
         for n_procs in range(1, n + 2):
-            if n_procs > max(n, 1) + 1:
+            if n_procs > max(n, 1) + 1 or (n_procs > max(n, 1) and n > spare_worker_upto):
                 continue
             for outs in itertools.product(alphabet, repeat=n):
                 outcomes = [{"o": "ok", "F": "F", "S": "S"}[c] for c in outs]
@@ -2812,8 +2813,8 @@ def run(ctx) -> Result:
     res.exhaustive = True
     rnd = [random_case(rng, "thread") for _ in range(3000 if ctx.thorough else 250)]
     timed("thread-random", check_pool_cases, res, rnd, rng, "thread-random", t_pool)
-    prc = exhaustive_cases(rng, 3 if ctx.thorough else 2, "oFS", backend="process")
-    prc += [random_case(rng, "process", 3, 6) for _ in range(400 if ctx.thorough else 24)]
+    prc = exhaustive_cases(rng, 3 if ctx.thorough else 2, "oFS", backend="process", spare_worker_upto=99 if ctx.thorough else 1)
+    prc += [random_case(rng, "process", 3, 6) for _ in range(400 if ctx.thorough else 16)]
     timed("process-gated", check_pool_cases, res, prc, rng, "process-gated", t_pool)
     n_doe = 240 if ctx.thorough else 18
     doe_cases = [c["case"] for c in corpus if c.get("kind") == "doe"]
@@ -2837,7 +2838,7 @@ def run(ctx) -> Result:
             for style in ("stop0", "stopmid"):
                 for _ in range(k):
                     hist_cases.append(gen_hist_case(rng, backend, "callable", n_procs=np_, first_style=style))
-    hist_cases += [gen_hist_case(rng, "thread", api) for api in ("callable", "exec", "exec", "lin", "lin") for _ in range(3 * k)]
+    hist_cases += [gen_hist_case(rng, "thread", api) for api in ("callable", "exec", "exec", "lin", "lin") for _ in range(5 * k)]
     hist_cases += [gen_hist_case(rng, "process", api) for api in ("exec", "lin", "exec1", "lin1") for _ in range(k)]
     timed("hist", check_hist_cases, res, hist_cases, ctx.t0 + span * 0.97)
     # workers sharing one full cache, each executing then linearizing its input, forced interleavings of the cache writes
@@ -2845,7 +2846,7 @@ def run(ctx) -> Result:
     for mode in ("thread", "process"):
         for api in ("lin", "exec+lin", "execlin"):
             xlin_cases += [gen_xlin_case(rng, mode, api, bias="E-first", all_workers=True) for _ in range(k)]
-    xlin_cases += [gen_xlin_case(rng, "thread") for _ in range(18 * k)] + [gen_xlin_case(rng, "process") for _ in range(3 * k)]
+    xlin_cases += [gen_xlin_case(rng, "thread") for _ in range(30 * k)] + [gen_xlin_case(rng, "process") for _ in range(3 * k)]
     timed("xlin", check_xlin_cases, res, xlin_cases, ctx.t0 + span * 0.995)
     res.extra["stream_wall_s"] = walls
     lost = res.extra.get("unresolved_timeouts")
